@@ -114,7 +114,7 @@ has mean `Σ_j μ_j`, variance `Σ_j (σ_j² + τ²)`, rank `dense[i]`, and the 
 theorem C01_teamAgg_inflate (τ : ℝ) (teams : List (List (Rating ℝ))) (dense : List Nat) (i : Nat)
     (h1 : i < teams.length) (h2 : i < dense.length) :
     (teamAggs (inflate τ teams) dense)[i]'(by
-        rw [teamAggs_length]; simp only [inflate, List.length_map]; omega) =
+        rw [teamAggs_length_real]; simp only [inflate, List.length_map]; omega) =
       { mu := (teams[i].map (·.mu)).sum,
         sig2 := (teams[i].map (fun p => p.sigma ^ 2 + τ ^ 2)).sum,
         rank := dense[i],
